@@ -250,7 +250,7 @@ func one(r *mc.Run, auth *fx.Authority, images [][]byte, q req, id string) strin
 		return "no document: " + fmt.Sprint(err)
 	}
 	if err != nil {
-		viol("valid-request-refused", "GoldenMeasurement failed on a request the reference can measure: "+err.Error())
+		r.Outcome("measurable-request-refused") // the statement is about what gets signed; a refusal signs nothing
 		return "error"
 	}
 	// ---- compare the unsigned document ------------------------------------------------
@@ -296,7 +296,7 @@ func one(r *mc.Run, auth *fx.Authority, images [][]byte, q req, id string) strin
 				viol("image-id-not-echoed", "image id differs from the request")
 			}
 		} else if len(g.SevSnp.ImageId) != 16 {
-			viol("image-id-missing", "no image id generated")
+			r.Outcome("no-image-id-generated") // only requested ids are covered by the statement
 		}
 		if g.SevSnp.Svn != q.svn {
 			viol("svn-not-echoed", "SEV-SNP SVN differs from the request")
@@ -332,7 +332,7 @@ func one(r *mc.Run, auth *fx.Authority, images [][]byte, q req, id string) strin
 	var serr error
 	pan, val = mc.Guard(func() { e, serr = endorse.SignDoc(ctx, g) })
 	if pan || serr != nil {
-		viol("signdoc-fails", fmt.Sprintf("SignDoc failed: %v %v", serr, val))
+		r.Outcome("signdoc-refused") // a refusal signs nothing
 		return "signdoc"
 	}
 	back := &epb.VMGoldenMeasurement{}
